@@ -334,6 +334,16 @@ class Gen:
                 self.stat('alias:obj')
                 self.emit(self.pick(['aset %d %s %s' % (a, self.pick(SETTERS), self.pick(GETTERS)), 'aparse %d' % a, 'aparsebg %d %s' % (a, self.pick(['href', 'protocol', 'pathname', 'search', 'path'])), 'aparseb %d %s' % (a, self.arg(self.pick(RELS))),
                                      'parse %d %s s%d' % (a, self.arg(self.pick(RELS)), a), 'sp %d aparse %s' % (a, self.arg(self.pick(['a', 'q', 'next', 'x']))), 'sp %d aset2' % a, 'sp %d aidx %s %d %d' % (a, self.pick(['remove', 'remove2', 'del', 'del2', 'set']), self.r.randrange(5), self.r.randrange(5)), 'sp %d selfsafea' % a]))
+        if self.r.randrange(15) == 0:
+            # mutators of a url's OWN list whose arguments are views of that list's names / values (any position), on a query
+            # with duplicates interleaved with other names
+            self.stat('alias:sp-indexed')
+            k = self.r.randrange(2)
+            self.emit('parse %d %s -' % (k, self.arg('http://h/p?' + self.pick(['a=1&b=2&a=3&b=4', 'x=1&y=2&x=1&z=3&x=2', 'a=1&a=2&b=3&a=4&c=5', 'k=' + 'v' * 30 + '&j=2&k=3']) + '#f')))
+            self.emit('sp %d get' % k)
+            for _ in range(self.r.randrange(1, 3)):
+                self.emit('sp %d aidx %s %d %d' % (k, self.pick(['remove', 'remove', 'remove2', 'del', 'del2', 'set', 'append']), self.r.randrange(6), self.r.randrange(6)))
+            self.emit('dump %d' % k)
         if self.r.randrange(12) == 0:
             # "follow the next parameter": the input of parse() is a view of the URL's own search parameter
             self.stat('alias:parse-own-param')
